@@ -21,7 +21,7 @@ CHECKS = {
               "behaviour to a small depth plus seeded simulated behaviours are replayed on real pymoto objects (real "
               "and complex) comparing every signal, slice and caller-held array after every action with TLC's "
               "expected contents; random API histories recorded from the real code on rank 1-3 arrays are validated "
-              "by TraceSignals.tla, which also evaluates the action properties on the observed executions."),
+              "by TraceSignals.tla, which also evaluates the action properties on the observed executions. Bases include index tuples mixing slices, integers and index arrays in either order, and rank-0 arrays (one cell, mutable)."),
         note=(TLC_BASE + "; numpy indexing defines which positions a slice selects; integer-array slices have no "
               "repeats and nested slices are basic slices (the property's quantifier)"),
         technique="TLA+ heap model checked by TLC; spec->code behaviour replay and code->spec trace validation",
@@ -36,7 +36,7 @@ CHECKS = {
               "nothing and that states are untouched; negative variants (no skip rule, overwrite instead of add) are "
               "refuted. Every emitted program is instantiated in pyMOTO (user-defined modules and EinSum/ConcatSignal, "
               "real SignalSlice inputs, nested Networks) and the state and sensitivity of every signal after every "
-              "module's response(), sensitivity() (incl. whether _sensitivity was invoked) and reset() are compared with TLC's."),
+              "module's response(), sensitivity() (incl. whether _sensitivity was invoked) and reset() are compared with TLC's. A third of the cases is also replayed with timing enabled and the modules appended one by one (the other documented way of driving a network)."),
         note=(TLC_BASE + "; module kinds are multi-affine integer maps; None and the all-zero vector count as the same "
               "sensitivity; correctness of an individual library module's adjoint is C01's subject"),
         technique="TLA+ program-enumerating model checked by TLC; per-module-step replay of every emitted program in pyMOTO",
@@ -70,7 +70,7 @@ CHECKS = {
               "variants, and LDASPattern.tla checks DiagSound/DiagComplete over every 3x3 sparsity pattern admitting a "
               "non-singular matrix. All behaviours to depth 2/3 and simulated long ones are replayed on LDAWrapper around a "
               "counting dense and sparse LU: per step the inner-call decision, both database sizes, the flags, dtype/shape of "
-              "the answer and the residual of the requested system of the current matrix are compared."),
+              "the answer and the residual of the requested system of the current matrix are compared. LDASPattern.tla also covers histories of updates of one wrapper whose value patterns change while the stored sparsity structure stays fixed; every pattern is realised with real and complex values, dense, sparse and fixed-structure sparse."),
         note=(TLC_BASE + "; classes realised by seeded, well-conditioned generic matrices; right-hand sides embedded "
               "isometrically so exact dependence equals numerical dependence far from the wrapper tolerance; user-given "
               "flags are truthful; [O] residual threshold 1e-5"),
@@ -104,7 +104,7 @@ CHECKS = {
               "operand but the in-place target changes). All operation sequences to depth 2/3 from five initial "
               "configurations (real, complex, mixed, zero-dyad, unset-shape) and simulated sequences of depth 8 are replayed "
               "on real DyadCarrier objects; after every operation todense(), shape and complex-ness of all three slots and "
-              "the returned value are compared exactly, with a 5 s alarm against non-termination."),
+              "the returned value are compared exactly, with a 5 s alarm against non-termination. A focused depth-3 enumeration interleaves the observers (contractions, products, trace) with the in-place mutators (row / column zeroing, +=)."),
         note=(TLC_BASE + "; an unset-shape carrier counts as the zero matrix of any shape; complex-ness must agree with "
               "todense() or iscomplex()"),
         technique="TLA+ dense-algebra model enumerated by TLC; exact replay of operation sequences on DyadCarrier",
@@ -116,7 +116,7 @@ CHECKS = {
               "one / Kronecker, reported derivative = exact difference quotient) in exact rationals; TLC checks it for every "
               "2D grid up to 5x5 (7x7) and 3D grid up to 3x3x3 (4x4x4) and three element-size triples and prints the complete "
               "tables, which are compared with DomainDefinition's methods (scalar and array arguments), attributes and "
-              "helper arrays. The enumeration is complete within the bounds."),
+              "helper arrays. The enumeration is complete within the bounds. Index arguments are given as scalars, vectors and rank-2 / rank-3 index arrays; all shape-function evaluations are made before any comparison (results must not alias)."),
         note=TLC_BASE + "; shape functions are evaluated on the 5^dim lattice of the element (they are multi-affine, so this determines them)",
         technique="TLA+ exact-rational grid model checked by TLC; table comparison with DomainDefinition",
         design="9/C13"),
@@ -130,7 +130,7 @@ CHECKS = {
               "case is replayed on AggActiveSet (mask must be admissible; PNorm with undamped scaling must return the extreme "
               "of the kept entries) and every history on PNorm(p=1)+AggScaling and on AggScaling directly, compared with the "
               "exact rationals. [O] the approximation bounds of PNorm, KSFunction and SoftMinMax for both parameter signs are "
-              "evaluated numerically on seeded positive data."),
+              "evaluated numerically on seeded positive data. Every active-set case is also replayed on exact positive affine images of the data."),
         note=(TLC_BASE + "; fractions are dyadic so n*fraction is exact in floating point; the bounds involving n^(1/p) and "
               "ln(n)/rho are observation predicates evaluated by the harness, not by TLC"),
         technique="TLA+ exact-rational model of active-set and scaling checked by TLC; replay of all cases; numeric bound observations",
@@ -180,7 +180,7 @@ CHECKS = {
               "total mass rho*V per direction, Poisson constants and energy of a linear field. The assembled matrices are "
               "compared exactly with AssembleGeneral (csc/csr, with add_constant), the element matrices with "
               "AssembleStiffness/Mass/Poisson; [O] symmetry, positive semi-definiteness, rigid-body null space, total mass and "
-              "Poisson properties of assembled matrices on larger random meshes are evaluated numerically."),
+              "Poisson properties of assembled matrices on larger random meshes are evaluated numerically. Constrained dofs are given as sorted array, reversed list, with default and with integer diagonal value; scaling vectors include dyadic fractions."),
         note=(TLC_BASE + "; the 2-point Gauss rule of the implementation is exact for these integrands, so its result must "
               "equal the exact integral to rounding (rtol 1e-12); eigenvalue-based semi-definiteness is an observation predicate"),
         technique="TLA+ exact-rational FE model checked by TLC; exact comparison of assembled and element matrices; numeric observations",
@@ -192,7 +192,7 @@ CHECKS = {
               "the free expansion in plane stress and 3D, and (OpTranspose) that the nodal scatter operator is the transpose of "
               "the element gather operator. Strain, Stress, ElementAverage, ElementOperation (all operator shapes incl. the "
               "per-node operator repeated over dofs), NodalOperation and ThermoMechanical are compared with TLC's exact values "
-              "on single elements and on multi-element meshes with non-unit element sizes."),
+              "on single elements and on multi-element meshes with non-unit element sizes. Operators with two leading dimensions are checked against the specification's gather matrix by linearity."),
         note=(TLC_BASE + "; in 2D the implementation's Stress carries the out-of-plane size, which is applied to the "
               "specification's stress as well"),
         technique="TLA+ exact-rational FE model checked by TLC; exact comparison with the element-level modules",
@@ -242,7 +242,7 @@ CHECKS = {
               "and generalised) and sparse (nmodes 2-3, several shifts) EigenSolve are compared with the exact values. [O] for "
               "complex Hermitian, real and complex general, complex symmetric matrices (standard and generalised) and FE "
               "stiffness/mass pencils with boundary conditions on the sparse path, the residual, the bilinear normalisation, "
-              "ordering, sign, count and the closest-to-shift selection are evaluated numerically."),
+              "ordering, sign, count and the closest-to-shift selection are evaluated numerically. Dense cases are also run with column-major inputs, and response() must leave its input matrices unchanged."),
         note=(TLC_BASE + "; eigenvalues are distinct and eigenvectors with zero mean (arbitrary sign) are excluded; the classes "
               "without an exact rational construction are decided by numerical observation predicates only"),
         technique="TLA+ exact pencil construction checked by TLC; comparison of EigenSolve with exact eigenpairs; numeric observations",
@@ -308,7 +308,7 @@ CHECKS = {
               "inputs, scale factors, overwrite modes, formats .10e/.4f/e/.6g/.3e/f, separators tab ; space , | and .csv). "
               "Every behaviour is replayed on the real modules in a scratch directory; after every call all files are decoded "
               "(XML attributes, extent / spacing / origin, base64 blocks as float32, log header and rows) and compared with "
-              "the specification's file system."),
+              "the specification's file system. Configurations include block vectors in both orientations, arrays larger than 64 KiB and logged arrays in column-major memory (log columns are compared by name)."),
         note=(TLC_BASE + "; byte-level decoding (XML, base64, text) is the harness's trusted projection; data are small integers, "
               "exact in single precision; whether third-party VTK readers accept the files is not decided"),
         technique="TLA+ abstract file-system machine checked by TLC; behaviour replay with decoding of the written files",
